@@ -21,6 +21,12 @@ CHECKS = {
  'C12': dict(cat='model_checking', tech='TLA+ spec model-checked with TLC (action properties) + trace validation of TLC-generated toggle/resume histories',
    text='ExploredStable, FrozenBounds, AppendOnly, ExpSplitFrozen, NonEmptyAfterExploration and the pure-view clauses (SD_Only, EE_Freeze, PO_Rows, StatsFunctional) are action properties / invariants of Sampler.tla, checked by TLC on the model and on every logged step of histories with toggles at arbitrary boundaries.',
    ref='DESIGN 5/C12'),
+ 'C05': dict(cat='model_checking', tech='TLA+ spec (Checkpoint.tla) model-checked with TLC + trace validation of per-boundary resume records (ResumeTrace.tla) from the real code',
+   text='Checkpoint.tla (field-group level: what each step dirties vs what each write kind writes) is model-checked for BoundaryEqual with the real step table and two broken tables that must fail; on the code, EVERY batch boundary of sliced reference runs is resumed from a copy of the checkpoint: load = memory part by part, then one and two further batches must reach the reference states (2-step bisimulation), which by induction gives equality for every sequence of stops; whole-run finals of uninterrupted and multi-stop histories are compared bit for bit.',
+   ref='DESIGN 4.3, 5/C05'),
+ 'C06': dict(cat='model_checking', tech='TLA+ spec (Checkpoint.tla, crash at every step) model-checked with TLC + strace syscall log validated against CheckpointIO.tla + SIGKILL injection at system calls',
+   text='Checkpoint.tla makes every file-system step of both protocols a separate action with Crash enabled everywhere: TLC proves Atomic/Recent/Restartable for write-to-temporary-then-rename and refutes them for the in-place protocol of the pinned commit. The syscall log of a real run (strace on the checkpoint paths) is validated against the file-level actions (no mutation of the live file except an atomic rename of a closed temporary), and child processes are killed at system calls on those paths (strided in quick, every call in thorough); the file left must be exactly checkpoint j or j+1 of the reference run and resumable.',
+   ref='DESIGN 4.3, 5/C06'),
 }
 NA = {
  'C04': 'statistical statement about the expectation over independent seeds of real-valued estimators; TLC has no probabilities or reals and trace validation judges single executions (DESIGN 7). Its deterministic premises are decided by C01, C02, C08, C12.',
